@@ -1,5 +1,6 @@
-// GENERATED on every run by vlib/extract.py from /repo -- do not edit
+// GENERATED on every run by vlib/extract.py from /tmp/refcheck-18294 -- do not edit
 #![allow(unused_imports, unused_variables, unused_mut, dead_code, unused_parens, unused_braces, non_snake_case)]
+#![feature(allocator_api)]
 use vstd::prelude::*;
 use core::cmp::Ordering;
 use core::marker::PhantomData;
